@@ -149,18 +149,20 @@ func hitPlan(kind string, L int) []hit {
 	F, S, M := firstChunk, tooSmall, maxBlob
 	var h []hit
 	switch kind {
-	case "hitA": // exactly on the thresholds; rising bits build a 3-level span tree
+	case "hitA": // exactly on the thresholds; rising bits build a 3-level span tree; one trigger inside the last buffer
 		h = []hit{{S, 13}, {F, 14}, {F + S, 13}, {F + 2*S + 1, 13}, {F + 3*S + 2, 14}, {F + 4*S + 3, 15}, {F + 5*S + 4, 13}, {F + 6*S + 5, 16},
-			{L - 40000, 14}, {L - 100, 13}, {L, 13}}
-	case "hitB": // one past the thresholds; falling bits (flat list)
+			{L - 100, 13}}
+	case "hitB": // one past the thresholds; falling bits (flat list); one trigger completing with the very last byte
 		h = []hit{{S + 1, 13}, {F - 1, 13}, {F + 1, 16}, {F + S + 1, 16}, {F + 2*S + 1, 13}, {F + 3*S + 2, 15}, {F + 4*S + 3, 14}, {F + 5*S + 4, 13},
-			{L - bufioSize - 1, 13}, {L - bufioSize + 1, 14}, {L - 1, 13}}
-	case "hitC": // around the hard cap: a split that coincides with / just precedes / just follows the forced one
-		h = []hit{{M, 13}, {F + M - 1, 14}, {F + M + M, 13}, {F + M + M + 1, 15}, {L - S - 1, 13}, {L - S, 13}}
+			{L, 13}}
+	case "hitC": // around the hard cap: a split that coincides with / just precedes / just follows the forced one; one just before the last buffer
+		h = []hit{{M, 13}, {F + M - 1, 14}, {F + M + M, 13}, {F + M + M + 1, 15}, {L - bufioSize - 1, 14}}
 	case "hitD": // dense: a trigger every S/2+1 bytes after the first chunk (every other one is too early)
 		for e := F + S/2 + 1; e <= L; e += S/2 + 1 {
 			h = append(h, hit{e, 13 + (e/(S/2+1))%3})
 		}
+	case "hitE": // one early split, then nothing until a trigger just inside the last buffer
+		h = []hit{{F + S + 1, 15}, {L - bufioSize + 1, 13}}
 	}
 	sort.Slice(h, func(i, j int) bool { return h[i].End < h[j].End })
 	var out []hit
@@ -175,8 +177,8 @@ func hitPlan(kind string, L int) []hit {
 	return out
 }
 
-var dataKindsQuick = []string{"det1", "zero", "avoid", "hitA", "hitB", "hitC", "hitD"}
-var dataKindsThorough = []string{"det1", "det2", "det3", "zero", "avoid", "hitA", "hitB", "hitC", "hitD"}
+var dataKindsQuick = []string{"det1", "zero", "avoid", "hitA", "hitB", "hitC", "hitD", "hitE"}
+var dataKindsThorough = []string{"det1", "det2", "det3", "zero", "avoid", "hitA", "hitB", "hitC", "hitD", "hitE"}
 
 // makeData builds the content of the given kind and length. For engineered
 // kinds it verifies, with the real rollsum, that the split points are exactly
@@ -204,7 +206,7 @@ func makeData(kind string, L int) ([]byte, error) {
 			return nil, fmt.Errorf("avoid data of length %d has %d split points", L, len(sp))
 		}
 		return d, nil
-	case "hitA", "hitB", "hitC", "hitD":
+	case "hitA", "hitB", "hitC", "hitD", "hitE":
 		tr, err := triggers()
 		if err != nil {
 			return nil, err
